@@ -4,7 +4,7 @@
    or plain file: mkdir fails with EEXIST for both), mkdir is one atomic step, other failures
    come from a fault oracle.  k concurrently starting runs are small-step machines driven by an
    arbitrary schedule.  Definitions only. *)
-From Coq Require Import ZArith List Bool.
+From Coq Require Import ZArith NArith List Bool.
 Import ListNotations.
 Open Scope Z_scope.
 
@@ -74,3 +74,20 @@ Fixpoint run_sched (sched : list nat) (fs : list Z) (procs : list proc) : list Z
 
 Definition results (procs : list proc) : list Z :=
   flat_map (fun p => match pr_done p with Some n => [n] | None => [] end) procs.
+
+(* ---- which directory a run started through main() uses.
+   Lithium.process_args assigns  self.temp_dir = args.tempdir  unconditionally (None without --tempdir),
+   whatever the object held before (e.g. the directory of an earlier main() on the same object);
+   Lithium.run creates a directory exactly when temp_dir is None. *)
+Inductive tdir := TGiven (path : list N) | TNum (n : Z).
+Definition after_process_args (before : option tdir) (opt_tempdir : option (list N)) : option tdir :=
+  match opt_tempdir with Some p => Some (TGiven p) | None => None end.
+Definition main_temp_dir (fuel : nat) (fault : Z -> option errno) (fs : list Z)
+           (before : option tdir) (opt_tempdir : option (list N)) : option tdir * ctd_result :=
+  match after_process_args before opt_tempdir with
+  | Some d => (Some d, Dir 0 fs)          (* the given directory is used; nothing is created *)
+  | None => match create_temp_dir fuel fault fs with
+            | Dir n fs' => (Some (TNum n), Dir n fs')
+            | r => (None, r)
+            end
+  end.
